@@ -235,7 +235,7 @@ func (r *runner) opResync(kind string, kv map[string]string) (string, string) {
 	// wait until the wallet has taken the RescanFinished notification, the rescan goroutines have passed it on
 	// ("Finished rescan" is logged right before `go w.resendUnminedTxs()`), and the re-broadcast goroutine has finished
 	// every transaction
-	deadline := time.Now().Add(10 * time.Second)
+	deadline := time.Now().Add(3 * time.Second)
 	for !r.fc.allDelivered() || atomic.LoadInt64(&theLogger.finished) == startFin ||
 		atomic.LoadInt64(&theLogger.rebroadcasts)-start < nExpected {
 		if time.Now().After(deadline) {
